@@ -1,6 +1,7 @@
 package client
 
 import (
+	"bytes"
 	"time"
 	"context"
 
@@ -216,6 +217,83 @@ func zzC03_token_reuse() {
 	}
 	symAssert(cc.tokenHandlerContainer.Length() == 0, "no token continuation is left behind")
 }
+
+// block-wise on: two callers with distinct tokens fetch two different 40-byte representations; the peer serves the
+// blocks of the two transfers in a decided interleaving; each caller gets exactly its own body
+func zzC03_blockwise() {
+	zzBlkNext = [2]int{}
+	s := zzNewSession()
+	cc := zzNewConn(s, zzConnCfg{midSeed: 1000, nstart: 2, maxRetrans: 4, blockwise: true})
+	symSetNow(time.Unix(0, 1<<41))
+	toks := []message.Token{{0xA1, 0xA2}, {0xB1}}
+	bodies := [][]byte{zzBigBody(40, 0x10), zzBigBody(40, 0x80)}
+	bodies[0][0], bodies[1][0] = symU8("a0"), symU8("b0")
+	bodies[0][39], bodies[1][39] = symU8("a39"), symU8("b39")
+	calls := []*zzCall{{token: toks[0]}, {token: toks[1]}}
+	for _, c := range calls {
+		go zzDo(cc, c)
+	}
+	served := 0 // index into s.written of the next request not yet answered
+	for round := 0; round < 8; round++ {
+		if calls[0].done && calls[1].done {
+			break
+		}
+		// wait until there is an unanswered request on the wire
+		symWaitUntil(func() bool {
+			n := 0
+			for _, w := range s.written[served:] {
+				if w.code == codes.GET {
+					n++
+				}
+			}
+			return n > 0 || calls[0].done && calls[1].done
+		})
+		symIdle()
+		var pend []int
+		for k := served; k < len(s.written); k++ {
+			if s.written[k].code == codes.GET {
+				pend = append(pend, k)
+			}
+		}
+		if len(pend) == 0 {
+			break
+		}
+		// the peer answers one of the pending block requests (decided which); the others stay pending
+		pick := pend[symChoose("serve", len(pend))]
+		w := s.written[pick]
+		who := 0
+		if len(w.token) == 1 {
+			who = 1
+		}
+		// which block does the request ask for: recover it from the raw request is not recorded, so the peer keeps
+		// its own per-transfer counter
+		num := zzBlkNext[who]
+		zzBlkNext[who]++
+		lo, hi := 16*num, 16*num+16
+		more := true
+		if hi >= 40 {
+			hi, more = 40, false
+		}
+		m := zzRequest(message.Acknowledgement, w.mid, codes.Content, w.token, bodies[who][lo:hi])
+		m.SetOptionUint32(message.Block2, zzBlockOpt(int64(num), more))
+		_ = m.SetETag([]byte{byte(who + 1)})
+		d, _ := m.MarshalWithEncoder(coder.DefaultCoder)
+		// mark this request as answered by swapping it to the front of the unanswered region
+		s.written[pick], s.written[served] = s.written[served], s.written[pick]
+		served++
+		_ = cc.Process(nil, append([]byte(nil), d...))
+	}
+	symWaitUntil(func() bool { return calls[0].done && calls[1].done })
+	symCover("both-downloaded")
+	for i, c := range calls {
+		symAssert(c.err == nil, "the block-wise download completes")
+		if c.err == nil {
+			symAssert(bytes.Equal(c.body, bodies[i]) && bytes.Equal(c.tok, toks[i]), "each caller receives exactly the representation served for its own token")
+		}
+	}
+}
+
+var zzBlkNext [2]int
 
 func zzC03_selftest() {
 	s := zzNewSession()
